@@ -1,4 +1,5 @@
 import CppUModel.Spec.Text
+import CppUModel.Gen.FailureCtors
 /-!
 # Runner output events (shared by C16 JUnit and C20 TeamCity)
 
@@ -6,9 +7,12 @@ What a `TestOutput` sees during `TestRegistry::runAllTests` (src/CppUTest/TestRe
 src/CppUTest/TestResult.cpp): a list of callbacks.  Both writers are folds over that list.
 
 * `Ev` — one callback on the output object, with the data the writers read from its argument.
-* `Script`/`Act` — a scripted test (what the harness registers): pass / fail with a message at
-  file:line (continuing: `addFailure`, or leaving the test: `UtestShell::fail`) / print / count
-  checks / let the (stubbed) clock advance; `willRun = false` is an `IgnoredUtestShell`.
+* `Script`/`Act` — a scripted test (what the harness registers): pass / fail through each of the
+  three `TestFailure` constructors (continuing: `addFailure`, or leaving the test:
+  `UtestShell::fail`) / a failure added by a plugin's post-test action / print / count checks / let
+  the (stubbed) clock advance; `willRun = false` is an `IgnoredUtestShell`.
+  Which field of a fresh `TestFailure` comes from where is the regenerated table
+  `Gen.FailureCtors` (member-initialiser lists of src/CppUTest/TestFailure.cpp).
 * `runAll` — the registry loop written from the C++ (group start flag, filter, end-of-group test),
   producing the event list.
 * `foldEvents` — the fold skeleton of an output writer.
@@ -100,8 +104,11 @@ theorem foldEvents_append {σ ω : Type} (step : σ → Ev → σ × List ω) :
 
 inductive Act
   | print    (file : Bytes) (line : Nat) (text : Bytes)   -- `UtestShell::print(text, file, line)`
-  | fail     (file : Bytes) (line : Nat) (msg : Bytes)    -- `addFailure(TestFailure(..))`, test goes on
-  | failExit (file : Bytes) (line : Nat) (msg : Bytes)    -- `UtestShell::fail(..)`: count a check, add, leave the test
+  | fail     (file : Bytes) (line : Nat) (msg : Bytes)    -- `addFailure(TestFailure(cur, file, line, msg))`, test goes on
+  | failExit (file : Bytes) (line : Nat) (msg : Bytes)    -- `UtestShell::fail(..)`: count a check, add a FailFailure, leave the test
+  | failMsg  (msg : Bytes)                                -- `addFailure(TestFailure(cur, msg))`: no location given
+  | failLoc  (file : Bytes) (line : Nat)                  -- `addFailure(TestFailure(cur, file, line))`: no message given
+  | postFail (msg : Bytes)                                -- a plugin's `postTestAction`: `result.addFailure(TestFailure(&test, msg))`
   | checks   (n : Nat)                                    -- `countCheck()` n times
   | tick     (ms : Nat)                                   -- the stubbed clock advances
 deriving Repr, DecidableEq, Inhabited
@@ -115,17 +122,67 @@ deriving Repr, DecidableEq, Inhabited
 def printText (file : Bytes) (line : Nat) (text : Bytes) : Bytes :=
   [10] ++ file ++ [58] ++ dec line ++ [32] ++ text
 
-def mkFailure (t : TestInfo) (file : Bytes) (line : Nat) (msg : Bytes) : Failure :=
-  { testName := t.name, file := file, line := line, testFile := t.file, testLine := t.line, message := msg }
+/-- `UtestShell::getFormattedName`: macro name, "(", group, ", ", name, ")" -/
+def formattedName (t : TestInfo) : Bytes :=
+  (if t.willRun then lit "TEST" else lit "IGNORE_TEST") ++ lit "(" ++ t.group ++ lit ", " ++ t.name ++ lit ")"
+
+open Gen.FailureCtors in
+/-- a text-valued source of a constructor's initialiser list -/
+def srcBytes (t : TestInfo) (file msg : Bytes) : Gen.FailureCtors.Src → Bytes
+  | .shellFormattedName => formattedName t
+  | .shellName => t.name
+  | .shellFile => t.file
+  | .argFile => file
+  | .argMessage => msg
+  | .text s => s
+  | .shellLine => []        -- not text-valued (excluded by the extractor's type check)
+  | .argLine => []
+
+/-- a number-valued source -/
+def srcNat (t : TestInfo) (line : Nat) : Gen.FailureCtors.Src → Nat
+  | .shellLine => t.line
+  | .argLine => line
+  | _ => 0                  -- not number-valued (excluded by the extractor's type check)
+
+/-- a `TestFailure` built by constructor `c` for shell `t` with the given arguments -/
+def mkFailureWith (c : Gen.FailureCtors.Ctor) (t : TestInfo) (file : Bytes) (line : Nat) (msg : Bytes) : Failure :=
+  { testName := srcBytes t file msg c.testNameOnly
+    file     := srcBytes t file msg c.fileName
+    line     := srcNat t line c.lineNumber
+    testFile := srcBytes t file msg c.testFileName
+    testLine := srcNat t line c.testLineNumber
+    message  := srcBytes t file msg c.message }
+
+/-- `TestFailure(cur, file, line, msg)` -/
+def locMsgFailure (t : TestInfo) (file : Bytes) (line : Nat) (msg : Bytes) : Failure :=
+  mkFailureWith Gen.FailureCtors.withLocationAndMessage t file line msg
+/-- `TestFailure(cur, msg)` -/
+def msgFailure (t : TestInfo) (msg : Bytes) : Failure :=
+  mkFailureWith Gen.FailureCtors.withMessage t [] 0 msg
+/-- `TestFailure(cur, file, line)` -/
+def locFailure (t : TestInfo) (file : Bytes) (line : Nat) : Failure :=
+  mkFailureWith Gen.FailureCtors.withLocation t file line []
+/-- `FailFailure(cur, file, line, msg)`: the constructor with a location, then `message_ = msg` -/
+def exitFailure (t : TestInfo) (file : Bytes) (line : Nat) (msg : Bytes) : Failure :=
+  { locFailure t file line with message := msg }
 
 /-- events a test body sends to the output; nothing after a `failExit` is executed -/
 def actEvs (t : TestInfo) : List Act → List Ev
   | [] => []
   | .print f l x :: as => .print (printText f l x) :: actEvs t as
-  | .fail f l m :: as => .failure (mkFailure t f l m) :: actEvs t as
-  | .failExit f l m :: _ => [.failure (mkFailure t f l m)]
+  | .fail f l m :: as => .failure (locMsgFailure t f l m) :: actEvs t as
+  | .failExit f l m :: _ => [.failure (exitFailure t f l m)]
+  | .failMsg m :: as => .failure (msgFailure t m) :: actEvs t as
+  | .failLoc f l :: as => .failure (locFailure t f l) :: actEvs t as
+  | .postFail _ :: as => actEvs t as
   | .checks _ :: as => actEvs t as
   | .tick _ :: as => actEvs t as
+
+/-- events of the plugin's post-test action (runs after the body, also when the body was left early) -/
+def postEvs (t : TestInfo) : List Act → List Ev
+  | [] => []
+  | .postFail m :: as => .failure (msgFailure t m) :: postEvs t as
+  | _ :: as => postEvs t as
 
 def actChecks : List Act → Nat
   | [] => 0
@@ -143,7 +200,14 @@ def actFailures : List Act → Nat
   | [] => 0
   | .failExit _ _ _ :: _ => 1
   | .fail _ _ _ :: as => 1 + actFailures as
+  | .failMsg _ :: as => 1 + actFailures as
+  | .failLoc _ _ :: as => 1 + actFailures as
   | _ :: as => actFailures as
+
+def postFailures : List Act → Nat
+  | [] => 0
+  | .postFail _ :: as => 1 + postFailures as
+  | _ :: as => postFailures as
 
 /-- one name filter of the registry (`TestFilter`): substring or strict match, possibly inverted -/
 structure Filter where
@@ -186,14 +250,15 @@ def endOfGroup (t : Script) (rest : List Script) : Bool :=
     An ignored shell only counts itself. -/
 def testEvs (t : Script) (r : R) : List Ev :=
   if t.info.willRun then
-    .testStarted t.info :: (actEvs t.info t.acts ++ [.testEnded (actTicks t.acts) (r.checks + actChecks t.acts)])
+    .testStarted t.info ::
+      (actEvs t.info t.acts ++ (postEvs t.info t.acts ++ [.testEnded (actTicks t.acts) (r.checks + actChecks t.acts)]))
   else
     [.testStarted t.info, .testEnded 0 r.checks]
 
 def afterTest (t : Script) (r : R) : R :=
   if t.info.willRun then
     { r with clock := r.clock + actTicks t.acts, runs := r.runs + 1, checks := r.checks + actChecks t.acts,
-             failures := r.failures + actFailures t.acts }
+             failures := r.failures + actFailures t.acts + postFailures t.acts }
   else
     { r with ignored := r.ignored + 1 }
 
